@@ -7,6 +7,7 @@ open SSEPy SSEPy.Driver
 structure DState where
   tables : Tables := {}
   parr : Option PArray.PArr := none
+  pdict : Option PDict.PDict := none
 
 def dispatch (st : DState) (line : String) : DState × String :=
   match (line.trimAscii.toString.splitOn " ") with
@@ -18,6 +19,7 @@ def dispatch (st : DState) (line : String) : DState × String :=
   | "aes" :: rest => (st, aesReq st.tables rest)
   | "ffx" :: rest => (st, ffxReq st.tables rest)
   | "lr" :: rest => (st, lrReq st.tables rest)
+  | "pdict" :: rest => let (p, r) := pdictReq st.pdict rest; ({ st with pdict := p }, r)
   | "parr" :: rest => let (p, r) := parrReq st.parr rest; ({ st with parr := p }, r)
   | _ => (st, Proto.bad)
 
